@@ -594,6 +594,18 @@ func GenCrashScript(r *Rng, kind string, hist map[string]int) []string {
 		}
 		hist["crash_merge_after_adopted_merge"]++
 	}
+	if kind == "merge" && r.Chance(2, 5) {
+		// an earlier merge that finished and was never adopted (no restart since): the merge under test
+		// begins by removing that directory, finished-marker and all - entry by entry
+		for i := 2 + r.Intn(5); i > 0; i-- {
+			mut()
+		}
+		add("merge")
+		for i := 1 + r.Intn(3); i > 0; i-- {
+			mut()
+		}
+		hist["crash_merge_over_finished_unadopted_merge"]++
+	}
 	add("mark")
 	n := 2 + r.Intn(8)
 	for i := 0; i < n; i++ {
